@@ -214,10 +214,9 @@ fn client_codec_history(seed: u64, i: u64, rep: &mut Report) {
         let p = ss::S22UdpPacket { session_id: ssid, packet_id: *id, type_byte: 1, timestamp: now, client_session_id: Some(csid), padding: vec![], addr: from.clone(), payload: payload.clone() };
         let wire = ss::s22_udp_server_encode(m, &keys.psk, &p, &rng.arr());
         let want = model.validate(*id, u64::MAX);
-        let _g = crate::checks::UDP2022_LOCK.lock().unwrap_or_else(|e| e.into_inner());
         let mut src = BytesMut::from(&wire[..]);
         let got = guarded(|| client.decode(&mut src));
-        drop(_g);
+
         rep.mon("client_reply_decisions_compared", 1);
         history.push(json!({"id": id.to_string(), "model": want, "codec": match &got { Ok(Some(_)) => "delivered", Ok(None) => "none", Err(_) => "error" }}));
         match (&got, want) {
